@@ -52,6 +52,12 @@ def run(pid: str, fname: str, rule: str, assumptions: list, extra=None):
         for s in specs[:2] + specs[-2:]:
             rep.sample({"kind": "population spec", "spec": s}, 4)
         pool.map_cases(rep, "harness.genchecks", fname, specs, chunk=4, clear_every=6, maxtasks=4)
+        if fname in ("case_c01", "case_c18"):
+            # the library's default mode: the same cases in workers started without x64 (float32 arrays throughout)
+            sub = [s for s in specs if s["src"] != "prog"] + [s for s in specs if s["src"] == "prog"][:(60 if t == "thorough" else 12)]
+            before = rep.evaluations
+            pool.map_cases(rep, "harness.genchecks", fname, sub, chunk=4, clear_every=6, maxtasks=4, x64=False)
+            rep.set("float32_pass", {"specs": len(sub), "evaluations": rep.evaluations - before})
         if extra:
             extra(rep, random.Random(rep.seed), t)
         rep.set("rule", rule)
